@@ -187,6 +187,11 @@ def effKw (params : List String) (pargs : List Arg) (pkw : KwMap) (args : List A
   let r2 := bindPos r1 remaining args
   .ok (kwargs.foldl (fun m p => kwSet m p.1 p.2) r2)
 
+/-- `MementoFunctionBase.partial(*a, **k)` on a function that already carries `pargs` / `pkw`: "successive calls to
+    partial append args and update kwargs" (`new_partial_args += partial_args; new_partial_kwargs.update(partial_kwargs)`) -/
+def partialStep (pargs : List Arg) (pkw : KwMap) (a : List Arg) (k : KwMap) : List Arg × KwMap :=
+  (pargs ++ a, k.foldl (fun m p => kwSet m p.1 p.2) pkw)
+
 /-- `_compute_effective_kwargs_with_context_args`: context args under one reserved key iff non-empty -/
 def withCtx (kw : KwMap) (ctx : KwMap) : KwMap :=
   if ctx.isEmpty then kw else kwSet kw "_memento_context_args" (.dict (ArgObj.ofList ctx))
